@@ -138,7 +138,11 @@ static int process_completed_fragment(sqfs_block_processor_t *proc,
 	if (frag->flags & SQFS_BLK_IS_SPARSE) {
 		if (frag->inode != NULL) {
 			sqfs_inode_make_extended(*(frag->inode));
-			set_block_size(frag->inode, frag->index, 0);
+			err = set_block_size(frag->inode, frag->index, 0);
+			if (err) {
+				release_old_block(proc, frag);
+				return err;
+			}
 			(*(frag->inode))->data.file_ext.sparse += frag->size;
 		}
 		proc->stats.sparse_block_count += 1;
